@@ -53,10 +53,10 @@ fn main() {
         std::panic::set_hook(Box::new(|_| {}));
     }
     // a case that never returns (a lock taken twice, a loop that spins) must not stall the check for hours: when no
-    // case has finished for SV_WATCHDOG_SECS seconds (default 180) the process ends with status 98; the checker then
+    // case has finished for SV_WATCHDOG_SECS seconds (default 300) the process ends with status 98; the checker then
     // re-runs the cases one at a time and the one that hangs is reported as not having produced its output
     static DONE: std::sync::atomic::AtomicU64 = std::sync::atomic::AtomicU64::new(0);
-    let limit: u64 = std::env::var("SV_WATCHDOG_SECS").ok().and_then(|s| s.parse().ok()).unwrap_or(180);
+    let limit: u64 = std::env::var("SV_WATCHDOG_SECS").ok().and_then(|s| s.parse().ok()).unwrap_or(300);
     std::thread::spawn(move || {
         let (mut last, mut idle) = (0u64, 0u64);
         loop {
